@@ -102,8 +102,15 @@ def impl_trace(reqs):
     return out
 
 def collapse(trace):
-    """drop immediate repetitions (net/http transparently retries an idempotent request on a broken connection)"""
+    """the projection of a request trace that the properties speak about: immediate repetitions dropped (net/http transparently retries an
+    idempotent request on a broken connection), and the cluster-description round - how often the tool asks for it before the log downloads start
+    is its own business - reduced to its distinct requests in order of first appearance"""
     out = []
     for x in trace:
         if not out or out[-1] != x: out.append(x)
-    return out
+    head = []
+    i = 0
+    while i < len(out) and out[i].startswith('C'):
+        if out[i] not in head: head.append(out[i])
+        i += 1
+    return head + out[i:]
